@@ -34,6 +34,7 @@ def find_top(start, allow_xdev=True, allow_compressed=False):
         res.unconstrained = 'start not accessible: %r' % (exc,)
         return res
     cur = start_real
+    symlinked = os.path.normpath(os.path.abspath(start)) != start_real
     last = {None}
     rel_parts = []
     while True:
@@ -59,6 +60,19 @@ def find_top(start, allow_xdev=True, allow_compressed=False):
                     res.unconstrained = 'Manifest %s unreadable/invalid: %r' % (p, exc)
                     return res
             rel = '/'.join(reversed(rel_parts))
+            if symlinked:
+                # the walk goes up through the link's target while the start path
+                # is known by the link's name: which of the two an IGNORE is matched
+                # against is not defined by the statement
+                k = len(rel_parts)
+                lex = os.path.normpath(os.path.abspath(start)).split('/')
+                rel_lex = '/'.join(lex[-k:]) if k else ''
+                if any(_ignores(ents, rel) != _ignores(ents, rel_lex)
+                       for n, ents in parsed if ents != 'xdev'):
+                    res.unconstrained = ('start reached through a symlink: an IGNORE '
+                                         'matches its name but not its target (or the '
+                                         'other way round)')
+                    return res
             if parsed:
                 first = parsed[0]
                 if first[1] == 'xdev':
